@@ -223,7 +223,7 @@ impl Prop for C15 {
         "C15"
     }
     fn rule(&self) -> String {
-        "case = ((piece family, operator) uniform over the 28 combinations whose trait bounds are satisfiable: {Segment*s, Segment*=s, (&mut Segment)*=s, Segment::translate, Piecewise*s, Piecewise*=s, -Piecewise, Piecewise::translate} x {PolyK, Log<PolyK>, IntOfLog<PolyK>, IntOfLogPoly4} minus MulAssign on IntOfLogPoly4 and Neg on Log; degree 0..=8; 0..=12 breakpoints from the lattice generator (Segment-level operators are applied to every segment of the list); pool of pairwise distinct finite numbers, piece j = pool rotated by 3j (1 case in 4: constant or period-3 pool, so that adjacent pieces are IDENTICAL functions - a step function with a plateau); scalar as in C14). Oracle: number of pieces, order and every end bit-identical; piece i of the result has exactly the numbers of the same operator applied to piece i alone (C14 pins what that is). Non-trivial: >=2 pieces.".into()
+        "case = ((piece family, operator) uniform over the 28 combinations whose trait bounds are satisfiable: {Segment*s, Segment*=s, (&mut Segment)*=s, Segment::translate, Piecewise*s, Piecewise*=s, -Piecewise, Piecewise::translate} x {PolyK, Log<PolyK>, IntOfLog<PolyK>, IntOfLogPoly4} minus MulAssign on IntOfLogPoly4 and Neg on Log; degree 0..=8; 0..=12 breakpoints from the lattice generator (Segment-level operators are applied to every segment of the list); pool of pairwise distinct finite numbers, piece j = pool rotated by 3j (1 case in 4: constant or period-3 pool, so that adjacent pieces are IDENTICAL functions - a step function with a plateau); scalar as in C14). Oracle: number of pieces, order and every end bit-identical; piece i of the result has exactly the numbers of the same operator applied to piece i alone, and exactly the numbers obtained by scaling / negating / translating the input piece number by number with plain f64 operations. Breakpoints are usually sorted, 1 in 10 lists are long (up to 40), 1 in 10 are in arbitrary order. Non-trivial: >=2 pieces.".into()
     }
     fn cases(&self, tier: Tier) -> u64 {
         tier.pick(1_000_000, 10_000_000)
@@ -234,7 +234,11 @@ impl Prop for C15 {
             2 => gen::from_table(&[0.0, -0.0, 1.0, -1.0, 2.0, -2.0, 0.5, 3.0, -7.0, 1e-300, -1e300, 5e-324, f64::MAX, 1.5, 0.9999999999999999, 1.0000000000000002, -0.9999999999999999]),
             2 => gen::any_finite(),
         ];
-        let ends = prop_oneof![1 => Just(Vec::new()), 8 => gen::ends(12, false)];
+        let ends = prop_oneof![
+            1 => Just(Vec::new()),
+            8 => gen::ends_long(12, 40, false),
+            1 => (gen::ends(12, false), any::<u64>()).prop_map(|(mut e, r)| { let n = e.len(); for i in 0..n { e.swap(i, ((r >> (i % 48)) as usize + i * 7) % n); } e }),
+        ];
         let pools = prop_oneof![6 => gen::distinct_numbers(13), 1 => gen::any_finite().prop_map(|c| vec![c; 13]), 1 => gen::distinct_numbers(3).prop_map(|v| (0..13).map(|i| v[i % 3]).collect::<Vec<f64>>())];
         (0..inst.len(), 0u8..9, ends, pools, scalars)
             .prop_map(move |(ii, deg, ends, pool, s)| {
@@ -295,6 +299,24 @@ impl Prop for C15 {
             }
             if !nums_eq(&r.pieces_out[i], &r.pieces_want[i]) {
                 fail!("{what}: piece #{i} of the result is {:?} but the operator applied to that piece alone gives {:?}", r.pieces_out[i], r.pieces_want[i]);
+            }
+            // ... and what that is, number by number, independently of the library's piece-level operator
+            // (C14 pins it; repeated here so that (f*s)(x) = s*f(x) does not rest on a shared slip)
+            let input: Vec<f64> = {
+                let n = r.pieces_out[i].len();
+                (0..n).map(|k| pool[(k + i * 3) % pool.len()]).collect()
+            };
+            let plain: Vec<f64> = match op {
+                S_MUL | S_MUL_ASSIGN | S_MUL_ASSIGN_REF | P_MUL | P_MUL_ASSIGN => input.iter().map(|v| v * s).collect(),
+                P_NEG => input.iter().map(|v| -v).collect(),
+                _ => {
+                    let mut t = input.clone();
+                    t[0] += s;
+                    t
+                }
+            };
+            if !nums_eq(&r.pieces_out[i], &plain) {
+                fail!("{what}: piece #{i} of the result is {:?} but the input piece {:?} scaled / negated / translated number by number is {:?}", r.pieces_out[i], input, plain);
             }
         }
         Outcome::Pass
